@@ -130,6 +130,18 @@ Proof.
   eexists. split; [replace (lvl - 1 + 1) with lvl by lia; reflexivity|reflexivity].
 Qed.
 
+(* a string argument that contains brace groups or commands: the value is the source text of the argument (since 7145f1b) --
+   the characters with their braces, a command as \name followed by one blank; not stripped *)
+Lemma areads_str_source : forall a k piece body rest src,
+  classify (a_type a) = TyStr -> delimited (a_spec a) piece body -> modelled body ->
+  forallb is_plain body = false -> braces_balanced O body = true -> source_of body = Some src ->
+  areads a (blanks k ++ piece ++ rest) (eq (VStr src)) rest.
+Proof.
+  intros a k piece body rest src Hc Hd Hm Hp Hb Hs lvl. rewrite (read_argument_generic a k piece body rest lvl) by (rewrite ?Hc; auto).
+  unfold cast. unfold modelled in Hm. rewrite Hm, Hc. unfold cast_str, normalize. rewrite Hp, Hb, Hs.
+  eexists. split; [replace (lvl - 1 + 1) with lvl by lia; reflexivity|reflexivity].
+Qed.
+
 Lemma areads_untyped : forall a k piece body rest,
   classify (a_type a) = TyNone \/ classify (a_type a) = TyNox -> delimited (a_spec a) piece body -> modelled body ->
   areads a (blanks k ++ piece ++ rest) (eq (VToks body)) rest.
@@ -668,7 +680,8 @@ Qed.
 
 (* conforms a s P s' : the stream s starts with a conforming use of the declared argument a, the value it denotes
    satisfies P, and s' is what follows.  One constructor per form; the side conditions say precisely what is excluded:
-   - str: the text contains only character tokens (a group or a macro inside is the known finding str-of-group);
+   - str: character tokens give the stripped text; with brace groups or commands inside the value is the source text
+     (c_str_source; registers, active characters and unbalanced braces inside a string are outside the Model);
    - int / float / dimen casts: the argument is exactly a printed literal (signs, digits / decimal / dimension);
    - Number: the literal is ended by a blank and not followed by a register (which would multiply it: known finding);
      Dimen, Glue: as in the numeric theorems (after fil/fill no further l; absent plus/minus really absent);
@@ -692,6 +705,10 @@ Inductive conforms : arg -> list tok -> (aval -> Prop) -> list tok -> Prop :=
 | c_str : forall a k piece body rest,
     classify (a_type a) = TyStr -> delimited (a_spec a) piece body -> forallb is_plain body = true ->
     conforms a (blanks k ++ piece ++ rest) (eq (VStr (strip (map code_of body)))) rest
+| c_str_source : forall a k piece body rest src,
+    classify (a_type a) = TyStr -> delimited (a_spec a) piece body -> modelled body ->
+    forallb is_plain body = false -> braces_balanced O body = true -> source_of body = Some src ->
+    conforms a (blanks k ++ piece ++ rest) (eq (VStr src)) rest
 | c_cs : forall a k ks rest (braced : bool),
     classify (a_type a) = TyCs -> a_spec a = None ->
     conforms a (blanks k ++ (if braced then [Ch 1 123; Cs ks false; Ch 2 125] else [Cs ks false]) ++ rest)
@@ -741,6 +758,7 @@ Proof.
   - apply areads_mod_present; assumption.
   - eapply areads_mod_absent; eassumption.
   - apply areads_str; assumption.
+  - eapply areads_str_source; eassumption.
   - apply areads_cs; assumption.
   - apply areads_tok; assumption.
   - apply areads_int; assumption.
